@@ -237,6 +237,13 @@ func monitorOp(m *lib.Monitor, s Script, i int, want, got, pre, note string) {
 	if op.has("gid") && (op.Op == "add" || op.Op == "upd") && s.Cfg.Kind == "coll" && !failed && newOracle(s.Cfg).icpt(op.ID) == "" {
 		monitorGenID(m, s, i, got, pre)
 	}
+	if s.Cfg.Kind == "coll" {
+		for _, id := range outputIDs(got) {
+			if !inIcptImage(s.Cfg.Icpt, id) {
+				m.Violate(name+"/raw-id-in-output", "an id in a bus event or handed to the id callback is not an id the interceptor produces (every entry point works on intercepted ids)", in, "an id in the image of interceptor '"+s.Cfg.Icpt+"'", id)
+			}
+		}
+	}
 	for _, p := range []struct{ key, sig, what string }{
 		{"err", "/wrong-code", "error code differs from the reference"},
 		{"val", "/wrong-result", "returned message differs from the reference"},
@@ -251,6 +258,35 @@ func monitorOp(m *lib.Monitor, s Script, i int, want, got, pre, note string) {
 			return
 		}
 	}
+}
+
+// outputIDs: the ids in the events and id-callback invocations of an answer.
+func outputIDs(ans string) []string {
+	var ids []string
+	if ev := strings.Trim(part(ans, "ev"), "[]"); ev != "" {
+		for _, e := range strings.Split(ev, ";") {
+			ids = append(ids, strings.SplitN(e, "|", 2)[0])
+		}
+	}
+	if cb := strings.Trim(part(ans, "ids"), "[]"); cb != "" {
+		ids = append(ids, strings.Split(cb, ";")...)
+	}
+	return ids
+}
+
+// inIcptImage: is id = icpt(x) for some x (decided per named interceptor, independently of any run)
+func inIcptImage(icpt, id string) bool {
+	switch icpt {
+	case "lower":
+		return lowerASCII(id) == id
+	case "first":
+		return len(id) <= 1
+	case "dash":
+		return strings.HasPrefix(id, "-")
+	case "dup":
+		return len(id)%2 == 0 && id[:len(id)/2] == id[len(id)/2:]
+	}
+	return true
 }
 
 // monitorGenID: a generated id is non-empty, was unused, is reported exactly once, and is usable
@@ -423,6 +459,42 @@ func (h *harness) smallScope(maxLen int) {
 	}
 	rec(nil)
 	h.tieS.Count(fmt.Sprintf("alphabet=%d maxLen=%d", len(alpha), maxLen))
+	// the same under the lower-casing id interceptor: two spellings of one id, and the empty id with id
+	// generation from an all-zero rng (every candidate of a length is the same string: collisions)
+	alpha = nil
+	for _, id := range []string{"a", "A", ""} {
+		alpha = append(alpha, Op{Op: "add", ID: id, Msg: "1//-", Opts: []string{"gid", "icb"}},
+			Op{Op: "upd", ID: id, Msg: "2/x/-", Opts: []string{"cia", "gid", "icb", "ccb"}},
+			Op{Op: "del", ID: id}, Op{Op: "get", ID: id})
+	}
+	alpha = append(alpha, Op{Op: "list"}, Op{Op: "get", ID: "aaaaaaaa"}, Op{Op: "del", ID: "AAAAAAAA"})
+	cfg = Cfg{Kind: "coll", Tick: 1, Icpt: "lower"}
+	rec(nil)
+	h.tieS.Count(fmt.Sprintf("interceptor: alphabet=%d maxLen=%d", len(alpha), maxLen))
+	// several writes on ONE resource with restricted writable fields, each with its own way of widening
+	// them (or none): what a write may touch depends on its own options only, never on an earlier write
+	for _, kind := range []string{"val", "coll"} {
+		alpha = nil
+		for _, m := range []string{"1/x/-", "2//4"} {
+			for _, o := range [][]string{nil, {"nw"}, {"mw=s"}, {"um=a"}, {"rs=c", "nw"}} {
+				if kind == "val" {
+					alpha = append(alpha, Op{Op: "vset", Msg: m, Opts: o})
+				} else {
+					alpha = append(alpha, Op{Op: "upd", ID: "a", Msg: m, Opts: append([]string{"cia"}, o...)})
+				}
+			}
+		}
+		w := "a"
+		cfg = Cfg{Kind: kind, Tick: 1, W: &w}
+		if kind == "val" {
+			cfg.Init = []string{"3/yy/0"}
+			alpha = append(alpha, Op{Op: "vget"})
+		} else {
+			alpha = append(alpha, Op{Op: "get", ID: "a"})
+		}
+		rec(nil)
+		h.tieS.Count(fmt.Sprintf("writable-fields %s: alphabet=%d maxLen=%d", kind, len(alpha), maxLen))
+	}
 }
 
 // maskScope: the full product of mask shapes around the nested message field (parent, children, both).
